@@ -23,7 +23,8 @@ func sortedPairsString(pairs []Pair) string {
 		pairStrs = append(pairStrs, pairStr)
 	}
 
-	sort.Slice(
+	// NOTE: stable sort keeps the given order of pairs whose keys are printed in the same way
+	sort.SliceStable(
 		pairStrs,
 		func(i, j int) bool { return pairStrs[i].k < pairStrs[j].k },
 	)
@@ -48,7 +49,8 @@ func sortedPairsRepr(pairs []Pair) string {
 		pairStrs = append(pairStrs, pairStr)
 	}
 
-	sort.Slice(
+	// NOTE: stable sort keeps the given order of pairs whose keys are printed in the same way
+	sort.SliceStable(
 		pairStrs,
 		func(i, j int) bool { return pairStrs[i].k < pairStrs[j].k },
 	)
